@@ -181,6 +181,17 @@ DevStepAlongZ(r) ==
   /\ r.in.pre[1] = r.in.post[1] /\ r.in.pre[2] = r.in.post[2]
   /\ \A j \in DOMAIN r.phot : ~r.phot[j].dfin /\ ~r.phot[j].polfin
 
+\* F-ROT-1 (registered for C04, repair withdrawn because it changes pinned gold values):
+\* corecel rotate() loses the sign of the reference direction's y component when that
+\* direction is within sin(theta) < 0.005 of the z axis.  CerenkovGenerator rotates the cone
+\* about the step direction, so for such a step with a negative y displacement every photon is
+\* emitted about the mirrored axis: the cone residual is up to 2 sin(theta).  Scope: Cerenkov,
+\* 0 < sin(theta_step) < 0.005 (1 + 1e-9), y component of the step direction negative; only
+\* the cone clause.
+DevRotateNearPole(r) ==
+  /\ r.proc = "cer" /\ "axis" \in DOMAIN r
+  /\ r.axis.near /\ r.axis.yneg
+
 Deviations(r) ==
   IF r.proc \notin Procs THEN {}
   ELSE (IF DevWideSpectrum(r)
@@ -192,6 +203,10 @@ Deviations(r) ==
         THEN {[name |-> "CerenkovStepAlongZNaN",
                covers |-> {"C20.UnitDirection", "C20.UnitPolarisation",
                            "C20.PolarisationPerpendicular"}]}
+        ELSE {})
+       \cup
+       (IF DevRotateNearPole(r)
+        THEN {[name |-> "RotateNearPoleNegativeY", covers |-> {"C20.CerenkovCone"}]}
         ELSE {})
 
 Explaining(r, V) == {d.name : d \in {e \in Deviations(r) : e.covers \cap V # {}}}
